@@ -79,7 +79,9 @@ def run(rep, pid, cfgs, modes='ctl-unsafe,ctl-safe,sync', module='Gen', replay_c
                     continue
                 comps = [x.split('(')[0].split('/')[0] for x in m['chain'].split('|')]
                 raw = res['raw'].get(str(m['case']))
-                if raw and (raw.get('fault') or {}).get('stage', 0) >= 1:
+                if raw and (raw.get('fault') or {}).get('stage', 0) >= 98:
+                    comps = ['observer']          # the fault was injected into the final observer's own callback
+                elif raw and (raw.get('fault') or {}).get('stage', 0) >= 1:
                     comps = [comps[raw['fault']['stage'] - 1]]    # the operator whose callback received the injected fault
                 rep.add_violation(prefix + cls, '%s [%s step %d] %s' % (m['chain'], m['mode'], m['step'], m['detail']),
                                   replay_obj=dict(kind='pipeline', module=module, mode=m['mode'], case=raw, mismatch=m), components=comps,
